@@ -223,9 +223,10 @@ func (pc *PlayClient) Close() {
 
 // PubClient is a recording (publishing) client.
 type PubClient struct {
-	C    *gortsplib.Client
-	Desc *description.Session
-	T    *Traffic
+	C       *gortsplib.Client
+	Desc    *description.Session
+	T       *Traffic
+	waitErr atomic.Value
 }
 
 // StartPublisher announces desc at path and starts recording.
@@ -240,7 +241,21 @@ func StartPublisher(ts *TestServer, desc *description.Session, o ClientOpts) (*P
 	if err := c.StartRecording(u.String(), desc); err != nil {
 		return nil, err
 	}
-	return &PubClient{C: c, Desc: desc}, nil
+	pc := &PubClient{C: c, Desc: desc}
+	go func() {
+		if err := c.Wait(); err != nil {
+			pc.waitErr.Store(err)
+		}
+	}()
+	return pc, nil
+}
+
+// Died returns the error that ended the publisher, if it has ended.
+func (pc *PubClient) Died() error {
+	if v := pc.waitErr.Load(); v != nil {
+		return v.(error)
+	}
+	return nil
 }
 
 // FlowPairs returns the (media index, payload type) pairs of a description.
